@@ -1101,7 +1101,11 @@ func (h *histRun) checkQuiescent(final bool) {
 			continue
 		}
 		for _, v := range rc.Viol {
-			if v.Prop == "C02" && (v.Sig == "strayEvent" || v.Sig == "dangling") && (h.hasNote("sub.unsend", c.CID, v.RID) || (v.Holder != "" && h.hasNote("sub.unsend", c.CID, v.Holder) && !h.worldHasRef(v.Holder, v.RID))) {
+			if v.Prop == "C02" && (v.Sig == "addIdxRange" || v.Sig == "removeIdxRange") && h.hasNote("sub.unsend", c.CID, v.RID) {
+				// finding A: the client's copy is the stale snapshot the resource
+				// was re-sent with after Unsend; a later index does not fit it
+				v.Sig += ".afterUnsend"
+			} else if v.Prop == "C02" && (v.Sig == "strayEvent" || v.Sig == "dangling") && (h.hasNote("sub.unsend", c.CID, v.RID) || (v.Holder != "" && h.hasNote("sub.unsend", c.CID, v.Holder) && !h.worldHasRef(v.Holder, v.RID))) {
 				// finding A/E: the resource itself was un-sent, or the holder was
 				// re-sent with a stale snapshot whose reference the service's
 				// current state no longer has
